@@ -182,6 +182,21 @@ func oprfCase(t *rapid.T, si suiteInfo, mode byte) {
 		}
 		vlib.Class(sub, "key=random")
 		keyDesc = "GenerateKey"
+		if si.le {
+			// group.Ristretto255.RandomScalar ignores its reader (crypto/rand inside): the key would
+			// not be a function of the drawn values, so a uniformly drawn scalar is unmarshalled instead
+			kb := make([]byte, 64)
+			vlib.FillRandom(t, kb, "keyuni")
+			kv := new(big.Int).SetBytes(kb)
+			if kv.Mod(kv, si.order).Sign() == 0 {
+				kv.SetInt64(1)
+			}
+			sk = new(oprf.PrivateKey)
+			if err := sk.UnmarshalBinary(si.suite, si.bigToBytes(kv)); err != nil {
+				t.Fatalf("PrivateKey.UnmarshalBinary of a canonical scalar: %v", err)
+			}
+			keyDesc = "UnmarshalBinary(uniform)"
+		}
 	default:
 		// a key received in its wire format, with edge values (1, 2, order-1, 2^k, …)
 		_, kv := si.drawScalar(t, true, "edgeKey")
@@ -440,6 +455,64 @@ func oprfCase(t *rapid.T, si suiteInfo, mode byte) {
 	nalt := rapid.IntRange(2, 4).Draw(t, "nalt")
 	for a := 0; a < nalt; a++ {
 		alterOnce(t, p, ref, fmt.Sprintf("a%d", a), desc, clientPK, pkRef, skRef, inputs, info, blinds1, fd1, req1, ev1, refBlinded, proofBytes, out1)
+	}
+
+	// ---- a zero blind handed to DeterministicBlind (the API accepts any scalar; RFC 9497 draws
+	// non-zero blinds): blinded[i] is then the identity. Whatever the client does with such a
+	// run, an evaluation whose element i was replaced must still be refused — the proof has to
+	// bind evaluation[i] also when blinded[i] is the identity. If the API refuses the zero blind
+	// that is counted instead. Nothing is asserted about the honest run with a zero blind.
+	if rapid.IntRange(0, 2).Draw(t, "zeroBlind") == 0 {
+		zsub := "oprf-zero-blind/" + si.name + "/" + mname
+		zi := rapid.IntRange(0, n-1).Draw(t, "zeroIdx")
+		zb := copyScalars(blinds1)
+		zb[zi] = g.NewScalar()
+		var fdz *oprf.FinalizeData
+		var reqz *oprf.EvaluationRequest
+		var evz *oprf.Evaluation
+		var zerr error
+		if pn, _ := vlib.Catch(func() {
+			fdz, reqz, zerr = p.blindDet(clientPK, inputs, zb)
+			if zerr == nil {
+				evz, zerr = p.evaluate(reqz, info)
+			}
+		}); pn != nil || zerr != nil {
+			vlib.Class(zsub, "zero blind refused by the API")
+			return
+		}
+		vlib.Eval(zsub)
+		how := rapid.SampledFrom([]string{"generator", "random", "public-key", "other-eval"}).Draw(t, "zeroHow")
+		var X group.Element
+		switch how {
+		case "generator":
+			X = g.Generator()
+		case "random":
+			X = si.drawElement(t, "zeroX")
+		case "public-key":
+			X = pkRef.Copy()
+		case "other-eval":
+			X = ev1.Elements[(zi+1)%n].Copy()
+		}
+		if X.IsEqual(evz.Elements[zi]) {
+			vlib.Class(zsub, "alteration-was-identity")
+			return
+		}
+		vlib.Class(zsub, fmt.Sprintf("batch=%d", n))
+		evA := &oprf.Evaluation{Elements: append([]oprf.Evaluated{}, evz.Elements...), Proof: evz.Proof}
+		evA.Elements[zi] = X
+		var ferr error
+		pn, st := vlib.Catch(func() { _, ferr = p.finalize(clientPK, fdz, evA, info) })
+		zdesc := fmt.Sprintf("%s ZERO BLIND at %d (blinded[%d]=%x), evaluation[%d] := %s (%x)", desc, zi, zi, ser(reqz.Elements[zi]), zi, how, ser(X))
+		if pn != nil {
+			vlib.Report(t, "C16/oprf-zero-blind/"+si.name+"/"+mname+"/panic/"+vlib.PanicClass(pn), fmt.Sprintf("%s: panic %v\n%s", zdesc, pn, st))
+			return
+		}
+		if ferr == nil {
+			vlib.Report(t, "C16/oprf-zero-blind/"+si.name+"/"+mname+"/accepted/eval-elem", zdesc+": Finalize returned no error")
+			return
+		}
+		vlib.NonTrivial(zsub, "finalize=error", []byte(zdesc))
+		vlib.Sample(zsub, "eval-elem", zdesc+fmt.Sprintf(" → %v", ferr))
 	}
 }
 
